@@ -383,3 +383,39 @@ func lwStandard(c *ctx, r *Report, judge func(cs Case) (string, string), per int
 	r.Notes = append(r.Notes, fmt.Sprintf("lintwf tie (Linter.Lint vs AL.Rules.lint: parser + matrix, credentials, job-needs, env-var, id, glob, permissions, if-cond, sorted): %d sources", r.Evaluations-n0))
 	return nil
 }
+
+// exStandard: the `exprwf` tie on the corpus, the mutants of the base workflows and `per` mutants of each corpus file
+func exStandard(c *ctx, r *Report, judge func(cs Case) (string, string), per int, bases bool) error {
+	corpus := pwCorpus()
+	n0 := r.Evaluations
+	if err := exTie(c, r, corpus, "corpus", judge); err != nil {
+		return err
+	}
+	rng := rand.New(rand.NewSource(c.seed + 13))
+	if bases {
+		for _, name := range []string{"a.yml", "b.yml", "c.yml"} {
+			if err := exTie(c, r, pwMutants(wfBases[name], rng, 0), "mutant of base "+name, judge); err != nil {
+				return err
+			}
+		}
+	}
+	if bases {
+		for _, name := range []string{"a.yml", "b.yml", "c.yml"} {
+			if err := exTie(c, r, exprMutants(wfBases[name], rng, 0), "expression planted in base "+name, judge); err != nil {
+				return err
+			}
+		}
+	}
+	if per > 0 {
+		var all []string
+		for _, s := range corpus {
+			all = append(all, pwMutants(s, rng, per)...)
+			all = append(all, exprMutants(s, rng, per)...)
+		}
+		if err := exTie(c, r, all, "mutant of a corpus file", judge); err != nil {
+			return err
+		}
+	}
+	r.Notes = append(r.Notes, fmt.Sprintf("exprwf tie (RuleExpression vs AL.RuleExpr.rule over the parser model's AST; multiset of classified `expression` diagnostics): %d sources", r.Evaluations-n0))
+	return nil
+}
